@@ -63,6 +63,9 @@ func teardownCells(parked bool) []cellSpec {
 				parks = []string{"maps", "alloc"} // a client PADT is not answered with a PADT
 			}
 			for _, at := range parks {
+				if at == "alloc" && (pre == "created" || pre == "authed") {
+					continue // no address yet: the pool's Release is never reached
+				}
 				for _, s := range []string{"parked:client-padt", "parked:admin-id", "parked:admin-mac", "parked:coa-disconnect"} {
 					out = append(out, cellSpec{Kind: "teardown", Path: p, Prefix: pre, Second: s, ParkAt: at})
 				}
@@ -72,9 +75,13 @@ func teardownCells(parked bool) []cellSpec {
 	return out
 }
 
-func genTeardown(s src, c cellSpec) *tcase {
+func genTeardown(s src, c cellSpec, base *params) *tcase {
 	tc := &tcase{Kind: c.Kind, Path: c.Path, Prefix: c.Prefix, Second: c.Second, ParkAt: c.ParkAt}
-	genCommon(s, &tc.P)
+	if base != nil {
+		tc.P = *base
+	} else {
+		genCommon(s, &tc.P)
+	}
 	tc.P.RadiusAuth = false
 	tc.P.PADTRetr = s.intn("padt.retries", 0, 2)
 	by := []string{"id", "mac"}
